@@ -197,8 +197,16 @@ where
     type Item = usize;
 
     fn next(&mut self) -> Option<Self::Item> {
-        let (Reverse(w_prev), u) = self.heap.pop()?;
         let dist_ptr = self.dist.as_mut_ptr();
+
+        // Skip superseded heap entries.
+        let (w_prev, u) = loop {
+            let (Reverse(w_prev), u) = self.heap.pop()?;
+
+            if unsafe { *dist_ptr.add(u) } == w_prev {
+                break (w_prev, u);
+            }
+        };
 
         for (v, w) in self.digraph.out_neighbors_weighted(u) {
             let w_next = w + w_prev;
@@ -213,11 +221,7 @@ where
             }
         }
 
-        if unsafe { *dist_ptr.add(u) } == w_prev {
-            return Some(u);
-        }
-
-        None
+        Some(u)
     }
 }
 
